@@ -2,7 +2,7 @@
    (src/CppUTestExt/MockNamedValue.cpp), LP64.  A stored value carries its type tag and, for integers,
    the mathematical integer it denotes (always in range of its type: setValue(T) takes a T). *)
 From Coq Require Import ZArith Bool List.
-From CppUVerif Require Import lib.CInt lib.Dbl.
+From CppUVerif Require Import lib.CInt lib.Dbl lib.Str.
 Import ListNotations.
 Local Open Scope Z_scope.
 
@@ -17,16 +17,7 @@ Inductive value :=
 Definition valid (v : value) : bool :=
   match v with VInt t z => in_range t z | _ => true end.
 
-Fixpoint bytes_eqb (a b : list N) : bool :=
-  match a, b with
-  | [], [] => true
-  | x :: a', y :: b' => (x =? y)%N && bytes_eqb a' b'
-  | _, _ => false
-  end.
-
 (* SimpleString of a C string: NULL becomes the empty string, a C string stops at its first NUL *)
-Fixpoint cut_nul (s : list N) : list N :=
-  match s with [] => [] | c :: r => if (c =? 0)%N then [] else c :: cut_nul r end.
 Definition sstr (s : option (list N)) : list N := match s with None => [] | Some l => cut_nul l end.
 
 (* the 30 mixed-type branches, in the order and with the casts of the source *)
